@@ -489,8 +489,14 @@ def dictview_seq(E, st, view):
 
 
 # primitive methods ----------------------------------------------------------
+_PYTYPES = {"str": str, "int": int, "bool": bool, "real": float, "list": list, "dict": dict, "odict": dict}
+
+
 def call_prim(E, st, base, meth, args, kwargs, node=None):
     t = base.kind.tag
+    if t in _PYTYPES and not hasattr(_PYTYPES[t], meth):
+        # e.g. "text".append(...): the real type has no such method
+        return [E.raise_(st, "AttributeError", "'%s' object has no attribute '%s'" % (_PYTYPES[t].__name__, meth))]
     if t == "str":
         return str_method(E, st, base, meth, args, kwargs)
     if t == "list":
